@@ -158,12 +158,42 @@ async fn c28_keyless(ctx: Ctx, depth: usize) {
     }
 }
 
+/// the `handle` argument of write / dispose / unregister_instance (documented on the DataWriter methods): the handle of the
+/// instance itself is accepted, the handle of another registered instance fails with PreconditionNotMet, a handle that no
+/// instance has fails with BadParameter
+async fn c28_handle_argument(ctx: Ctx) {
+    let f = ctx.factory("", None);
+    let p = f.create_participant(0, QosKind::Default, NO_LISTENER, NO_STATUS).await.unwrap();
+    let topic = p.create_topic::<KeyedData>("T", "T", QosKind::Default, NO_LISTENER, NO_STATUS).await.unwrap();
+    let publisher = p.create_publisher(QosKind::Default, NO_LISTENER, NO_STATUS).await.unwrap();
+    let w = publisher.create_datawriter::<KeyedData>(&topic, QosKind::Default, NO_LISTENER, NO_STATUS).await.unwrap();
+    let ha = w.register_instance(sample(1, 0, 4)).await.expect("register a").expect("handle a");
+    let hb = w.register_instance(sample(2, 0, 4)).await.expect("register b").expect("handle b");
+    let op = ctx.choose(b'O', 3);
+    let hk = ctx.choose(b'O', 3);
+    let (h, exp, hname) = match hk {
+        0 => (ha, "Ok", "own"),
+        1 => (hb, "PreconditionNotMet", "other-instance"),
+        _ => (InstanceHandle::new([0xAB; 16]), "BadParameter", "unknown"),
+    };
+    let (got, oname) = match op {
+        0 => (err_name(&w.write(sample(1, 1, 4), Some(h)).await), "write"),
+        1 => (err_name(&w.dispose(sample(1, 1, 4), Some(h)).await), "dispose"),
+        _ => (err_name(&w.unregister_instance(sample(1, 1, 4), Some(h)).await), "unregister_instance"),
+    };
+    ctx.obs(format!("{oname}(a, Some({hname})) -> {got}"));
+    if got != exp {
+        ctx.violation(format!("handle-argument/{oname}/{hname}/expected={exp}/got={got}"), format!("instances a and b registered; {oname}(sample of a, Some(<{hname} handle>)) returned {got}, documented: {exp}"));
+    }
+}
+
 pub fn c28(args: &Args) -> Vec<Scenario> {
     let d = if args.thorough() { 6 } else { 5 };
     vec![
         Scenario::new(format!("C28.keyed[autoenable=true,depth={d}]"), 99, move |ctx| c28_keyed(ctx, d, true)),
         Scenario::new(format!("C28.keyed[autoenable=false,depth={d}]"), 99, move |ctx| c28_keyed(ctx, d, false)),
         Scenario::new(format!("C28.keyless[depth={}]", d + 1), 99, move |ctx| c28_keyless(ctx, d + 1)),
+        Scenario::new("C28.handle-argument[]", 99, c28_handle_argument),
     ]
 }
 
